@@ -251,7 +251,25 @@ def deliver_cancel(rng, root):
 
 def run(ctx, rng, k, cancel_prob=0.0, max_polls=40, local_prob=0.0, entry="direct", timeouts=0.0, force=None,
         spec=None):
-    """returns dict(mon={prop: [...]}, polls=.., ret=.., spec=.., nontrivial=..)"""
+    """returns dict(mon={prop: [...]}, polls=.., ret=.., spec=.., nontrivial=..), or None when the generated
+    study cannot be run at all (staging refuses it; a script name beyond the file system's limit)"""
+    import errno
+    import tempfile
+    # the temporary directory of --usetmp belongs to the run's scratch space, not to /tmp
+    saved_tmp = tempfile.tempdir
+    tempfile.tempdir = os.path.join(ctx.scratch, "tmp")
+    os.makedirs(tempfile.tempdir, exist_ok=True)
+    try:
+        return _run(ctx, rng, k, cancel_prob, max_polls, local_prob, entry, timeouts, force, spec)
+    except OSError as e:
+        if e.errno == errno.ENAMETOOLONG:
+            return None
+        raise
+    finally:
+        tempfile.tempdir = saved_tmp
+
+
+def _run(ctx, rng, k, cancel_prob, max_polls, local_prob, entry, timeouts, force, spec):
     import maestrowf.conductor as cmod
     from maestrowf.conductor import Conductor
     from maestrowf.datastructures.core.executiongraph import ExecutionGraph
